@@ -354,7 +354,7 @@ func c05Run(c *engine.Ctx) {
 	// the input, so every ordered pair of inputs is a history that may poison the second run
 	c.Sub("cache-history")
 	{
-		pats := []string{"a", "A", "^a$", "(", "a.", "(?<n>a)|b"}
+		pats := []string{"a", "A", "^a$", "(", "a.", "(?<n>a)|b", "ag", "ai", "ax", "Agi"} // incl. patterns that equal another pattern followed by its flags
 		flags := []any{nil, "", "g", "i", "x", "gx", "ix", "n", "s", "l", "xi", "gi", "m", "gm", "mx"}
 		var cins []any
 		for _, p := range pats {
@@ -400,7 +400,7 @@ func c05Run(c *engine.Ctx) {
 				}
 			}
 		}
-		c.Sample(map[string]any{"program": progs[0], "histories": "every ordered pair of 90 inputs [subject, pattern, flags] (valid and invalid flags) on one Code", "oracle": "the second run equals a run on a fresh Code"})
+		c.Sample(map[string]any{"program": progs[0], "histories": "every ordered pair of 150 inputs [subject, pattern, flags] (valid and invalid flags) on one Code", "oracle": "the second run equals a run on a fresh Code"})
 	}
 
 	c.Sub("corpus")
@@ -444,7 +444,7 @@ func init() {
 		ID:    "C05",
 		Level: "exploration",
 		Rule: "every derivation (<= 3 nodes, thorough 4) of a mutation-prone grammar (update, delete, add, sort, slice, accumulate, container constants, variables), every builtin of `builtins` applied with a small argument set, and every corpus query x 10 inputs built with aliased substructure, spare capacity with sentinels, json.Number and *big.Int leaves x a fixed set of histories of one *Code (drained x3 on the same input object, fresh equal copy, abandoned after one output + other input + re-run, two live iterators advanced alternately, an ended iterator polled while the Code runs again); " +
-			"deep snapshots incl. spare capacity of the input, the variable value, every container constant in the instruction list and every emitted value are compared after every step, and output sequences and Marshal bytes with run 1. Cache histories: 10 regex programs whose pattern and flags come from the input x every ordered pair of 90 inputs (6 patterns x 15 flag values, valid and invalid) run on one Code, the second run compared with a fresh Code. A (program, input) pair is non-trivial when the first run emits something.",
+			"deep snapshots incl. spare capacity of the input, the variable value, every container constant in the instruction list and every emitted value are compared after every step, and output sequences and Marshal bytes with run 1. Cache histories: 10 regex programs whose pattern and flags come from the input x every ordered pair of 150 inputs (10 patterns, some equal to another pattern followed by flags, x 15 flag values, valid and invalid) run on one Code, the second run compared with a fresh Code. A (program, input) pair is non-trivial when the first run emits something.",
 		Assume: []string{"Go map iteration order cannot be owned by a harness: dependence on it is only re-sampled (several runs per history), not enumerated", "same-value writes are invisible to snapshots (they are C06's business)"},
 		Run:    c05Run, Replay: c05Replay,
 		QuickBudget: 150 * time.Second, ThoroughBudget: 25 * time.Minute,
